@@ -34,6 +34,13 @@ MUTANTS = [
     ("sort-unstable-rev-ties", "qty-macros/src/quantity_attr_helper.rs", "            x.partial_cmp(&y).unwrap()\n        });", "            x.partial_cmp(&y).unwrap().then(std::cmp::Ordering::Greater)\n        });", ["C09"]),
     ("ref-unit-not-first", "qty-macros/src/quantity_attr_helper.rs", "qty_def.units.insert(0, ref_unit_def);", "qty_def.units.push(ref_unit_def);", ["C09"]),
     ("sort-by-scale-desc-ties", "qty-macros/src/quantity_attr_helper.rs", "        qty_def.units.sort_by(|a, b| {\n            let x = opt_lit_to_f64(&a.scale);", "        qty_def.units.reverse();\n        qty_def.units.sort_by(|a, b| {\n            let x = opt_lit_to_f64(&a.scale);", ["C09"]),
+    ("parse-args-accepts-plus", "qty-macros/src/quantity_attr_helper.rs", "syn::BinOp::Mul(_) | syn::BinOp::Div(_) => {", "syn::BinOp::Mul(_) | syn::BinOp::Div(_) | syn::BinOp::Add(_) => {", ["C12"]),
+    ("check-struct-ignores-generics", "qty-macros/src/quantity_attr_helper.rs", "    if !ast.generics.params.is_empty() {", "    if false && !ast.generics.params.is_empty() {", ["C12"]),
+    ("second-ref-unit-tolerated", "qty-macros/src/quantity_attr_helper.rs", "            if opt_ref_unit_attr.is_some() {\n                abort!(attr, MORE_THAN_ONE_REFUNIT_ATTR_ERROR);\n            }", "", ["C12"]),
+    ("force-mass-times-speed", "src/force.rs", "#[quantity(Mass * Acceleration)]", "#[quantity(Mass * Speed)]", ["C06", "C04"]),
+    ("where-clause-dropped", "qty-macros/src/quantity_attr_helper.rs", "        impl Div<#rhs_qty_ident> for #lhs_qty_ident\n        where\n            Self: HasRefUnit,\n            #rhs_qty_ident: HasRefUnit,\n        {", "        impl Div<#rhs_qty_ident> for #lhs_qty_ident\n        {", ["C12", "C06"]),
+    ("feature-edge-removed", "Cargo.toml", 'speed = ["length", "duration"]', 'speed = ["length"]', ["C19"]),
+    ("feature-edge-removed-2", "Cargo.toml", 'energy = ["force", "length"]', 'energy = ["force"]', ["C19"]),
     ("from-symbol-case-insensitive", "src/lib.rs", "        Self::iter().find(|&unit| unit.symbol() == symbol)", "        Self::iter().find(|&unit| unit.symbol().to_lowercase() == symbol.to_lowercase())", ["C09"]),
     ("si-prefix-rows-swapped", "src/si_prefixes.rs", "            \"h\" => Some(Self::HECTO),", "            \"h\" => Some(Self::DECA),", ["C16"]),
     ("amt-mul-qty-swapped-unit", "qty-macros/src/quantity_attr_helper.rs", "Self::Output::new(self.amount() / rhs, self.unit())", "Self::Output::new(rhs / self.amount(), self.unit())", ["C08"]),
